@@ -2808,6 +2808,81 @@ def write_if_changed(path: Path, text: str):
     return True
 
 
+def gen_reset():
+    """BitBirch.reset (bblean/bitbirch.py): which attributes of the estimator it writes, next to the
+    attributes BitBirch.set_merge writes (= where the merge configuration lives).  reset may consist of a
+    docstring, assignments `self.<attr chain> = <constant>` and `if self.<attr> is not None:` blocks of such
+    assignments without else; anything else (a call, a loop, del, an assignment of a non-constant) is a
+    failed translation — a call could change the configuration unseen."""
+    tree = ast.parse((REPO / "bblean/bitbirch.py").read_text())
+    reset = find_func(tree, "BitBirch.reset")
+    setm = find_func(tree, "BitBirch.set_merge")
+    if [p.arg for p in reset.args.args] != ["self"] or reset.args.kwonlyargs or reset.args.vararg or reset.args.kwarg:
+        raise Unsupported("reset: parameters")
+    if reset.decorator_list:
+        raise Unsupported("reset: decorators")
+
+    def chain(t):
+        parts = []
+        while isinstance(t, ast.Attribute):
+            parts.append(t.attr)
+            t = t.value
+        if not (isinstance(t, ast.Name) and t.id == "self") or not parts:
+            raise Unsupported(f"reset: target {ast.unparse(t)} is not an attribute of self")
+        return list(reversed(parts))
+
+    writes, clears = [], []
+
+    def assign(st, top):
+        if not (isinstance(st, ast.Assign) and len(st.targets) == 1 and isinstance(st.value, ast.Constant)
+                and (st.value.value is None or type(st.value.value) is int)):
+            raise Unsupported(f"reset: statement `{ast.unparse(st)}`")
+        c = chain(st.targets[0])
+        writes.append(c[0])
+        if top and len(c) == 1:
+            clears.append((c[0], repr(st.value.value)))
+
+    body = list(reset.body)
+    if body and isinstance(body[0], ast.Expr) and isinstance(body[0].value, ast.Constant) \
+            and isinstance(body[0].value.value, str):
+        body = body[1:]
+    for st in body:
+        if isinstance(st, ast.If):
+            t = st.test
+            if st.orelse or not (isinstance(t, ast.Compare) and len(t.ops) == 1 and isinstance(t.ops[0], ast.IsNot)
+                                 and isinstance(t.comparators[0], ast.Constant) and t.comparators[0].value is None
+                                 and isinstance(t.left, ast.Attribute)):
+                raise Unsupported(f"reset: condition `{ast.unparse(t)}`")
+            chain(t.left)
+            for s2 in st.body:
+                assign(s2, False)
+        else:
+            assign(st, True)
+    cfg = []
+    for n in ast.walk(setm):
+        tg = n.targets if isinstance(n, ast.Assign) else [n.target] if isinstance(n, (ast.AugAssign, ast.AnnAssign)) else []
+        for t in tg:
+            for y in ast.walk(t):
+                if isinstance(y, ast.Attribute) and isinstance(y.value, ast.Name) and y.value.id == "self":
+                    if y.attr not in cfg:
+                        cfg.append(y.attr)
+    # a later top-level write of the same attribute wins
+    last = {}
+    for a, v in clears:
+        last[a] = v
+    q = lambda x: '"' + x + '"'
+    out = [HEADER.format(src="bblean/bitbirch.py (BitBirch.reset, BitBirch.set_merge)"),
+           "From Coq Require Import List.\nImport ListNotations.\nOpen Scope string_scope.\n",
+           "(* root attributes of self that reset() assigns (directly or through self.<root>.<field>) *)",
+           "Definition reset_writes : list string := [" + "; ".join(q(a) for a in dict.fromkeys(writes)) + "].",
+           "(* unconditional `self.<attr> = <constant>` of reset(), final value *)",
+           "Definition reset_clears : list (string * string) := ["
+           + "; ".join(f"({q(a)}, {q(v)})" for a, v in last.items()) + "].",
+           "(* attributes of self that set_merge() assigns: where the merge configuration lives *)",
+           "Definition config_attrs : list string := [" + "; ".join(q(a) for a in cfg) + "].", ""]
+    return "\n".join(out)
+
+
 def main():
     """Each module is translated independently.  A module that cannot be translated is
     replaced by a file that does not compile (fail-closed): every proof that depends on it
@@ -2847,6 +2922,7 @@ def main():
     attempt("GConfig", gen_config)
     attempt("GFit", gen_fit_plan)
     attempt("GTree", gen_tree_plan)
+    attempt("GReset", gen_reset)
     for k, v in status.items():
         print(f"translate {k}: {v}")
     return 0 if all(v == "ok" for v in status.values()) else 1
